@@ -144,6 +144,10 @@ func (s *scanner) Length() (uint, error) {
 			length--
 		}
 	}
+	if length > uint(s.dataSize) {
+		// The last lexeme was closed by the end of the text.
+		length = uint(s.dataSize)
+	}
 	for ; length > 0; length-- {
 		c := s.data[length-1]
 		if !bytes.IsBlank(c) {
